@@ -212,6 +212,25 @@ def id_truthiness_sites(db, modules=None):
     return truthy, nlook
 
 
+def _add_symbols_run(db, st):
+    """add_symbols evaluated on a small concrete table: (verdict, final state) or None when the run does not end in concrete containers"""
+    from ..core.interp import Interp
+    try:
+        runs = [r for r in Interp(db).explore(f"{st.name}:TraceSymbolTable.add_symbols", lambda I: {"self": Obj("self", cls=(st, "TraceSymbolTable"), attrs={"sym_table": ["a", "b"], "sym_index": {"a": 0, "b": 1}}),
+                                                                                                      "symbols": ["b", "c", "c", "d", "a"]}) if r.raised is None]
+    except AnalysisError:
+        return None
+    if len(runs) != 1 or runs[0].path:
+        return None
+    so = runs[0].env.get("self")
+    tab, idx = (so.attrs.get("sym_table"), so.attrs.get("sym_index")) if isinstance(so, Obj) else (None, None)
+    unc = lambda v: v[1] if isinstance(v, tuple) and len(v) == 2 and v[0] == "const" else v
+    if not (isinstance(tab, list) and isinstance(idx, dict) and all(isinstance(unc(x), str) for x in tab) and all(isinstance(unc(k), str) and isinstance(unc(v), int) for k, v in idx.items())):
+        return None
+    got = {"sym_table": [unc(x) for x in tab], "sym_index": {unc(k): unc(v) for k, v in idx.items()}}
+    return got == {"sym_table": ["a", "b", "c", "d"], "sym_index": {"a": 0, "b": 1, "c": 2, "d": 3}}, got
+
+
 def _add_symbols_effects(f):
     """(verdict, details) for TraceSymbolTable.add_symbols: inside the loop over the given symbols, a symbol that is NOT yet in the index gets
     id = the table's length BEFORE it is appended, is appended once and indexed once; a symbol already present causes no effect.
@@ -297,7 +316,15 @@ def run(db, chk) -> None:
     f = st.func("TraceSymbolTable.add_symbols")
     where = st.loc(f)
     ok, det = _add_symbols_effects(f)
-    chk.ob("C11.R1-append-only", "add_symbols: for each symbol not yet in sym_index: id = len(sym_table) taken BEFORE the append, then append and index it - nothing else", ok, where, found=det,
+    sem = _add_symbols_run(db, st)
+    if sem is not None:
+        chk.ob("C11.R1-append-only", "[abstract run] add_symbols(['b', 'c', 'c', 'd', 'a']) on the table ['a', 'b']: known symbols keep their ids, every new symbol is appended ONCE with the next free id (also when it is repeated within the call)",
+               sem[0], where, found=sem[1], accepted={"sym_table": ["a", "b", "c", "d"], "sym_index": {"a": 0, "b": 1, "c": 2, "d": 3}},
+               why="a batch that filters against the table as it was BEFORE the call appends a repeated new symbol twice: two ids decode to one string, the index points at the last copy")
+        if ok is not True:
+            ok, det = (None if sem[0] else ok), det          # the shape of the loop is a diagnostic: with the run deciding, an unrecognised spelling is not a finding
+    if not (sem is not None and sem[0] and ok is None):
+      chk.ob("C11.R1-append-only", "add_symbols: for each symbol not yet in sym_index: id = len(sym_table) taken BEFORE the append, then append and index it - nothing else", ok, where, found=det,
            accepted={"guard": "s not in self.sym_index", "body": ["idx=len(self.sym_table)", "self.sym_table.append(s)", "self.sym_index[s]=idx"]},
            why="taking the id after the append, or storing outside the guard, breaks the bijection or renumbers existing symbols")
     cl = st.func("TraceSymbolTable.clone")
